@@ -71,9 +71,12 @@ const UG1A: &str = "input: q/1. output: p/1. assumption: forall X (q(X) -> X = 0
 /// several output predicates that occur in no rule of a program (each gets an empty definition; their order is the user guide's)
 const UG0M: &str = "input: q/0. output: p/0. output: s/0. output: u/0. output: v/0. output: w/0.";
 const P0M: &[&str] = &["p :- q.", "p :- q. s :- p.", "p :- t. t :- q. u :- not q.", "", "{p} :- q. v :- p, not q.", "p :- q. s. w :- s, q."];
+/// a placeholder of sort general (declared with and without the sort), no assumption about it
+const UGG: &str = "input: q/1. input: g -> general. input: h. output: p/1.";
+const PG: &[&str] = &["p(X) :- q(X), X != g.", "p(X) :- q(X), X < g.", "p(g) :- q(g).", "p(X) :- q(X), not t(X). t(g).", "p(X) :- q(X), X != g, X != h.", "p(X) :- q(X), g != h."];
 const UGN: &str = "input: q/1. input: n -> integer. output: p/1.";
 const UGC: &str = "input: q/1. input: c -> symbol. input: d -> general. output: p/1. assumption: c != d.";
-const PN: &[&str] = &["p(X) :- q(X), X != n.", "p(X) :- q(X), not t(X). t(n).", "p(X) :- q(X), X < n.", "p(X) :- q(X), X <= n, X != n.", "p(n) :- q(n).", "p(X) :- q(X), X > n - 1."];
+const PN: &[&str] = &[":- n < 1. p(X) :- q(X).", "p(X) :- q(X), n > 0.", ":- n != 1. p(X) :- q(X), X != n.", "p(X) :- q(X). :- 1 > n, n > -1.", "p(X) :- q(X), X != n.", "p(X) :- q(X), not t(X). t(n).", "p(X) :- q(X), X < n.", "p(X) :- q(X), X <= n, X != n.", "p(n) :- q(n).", "p(X) :- q(X), X > n - 1."];
 const PC: &[&str] = &["p(X) :- q(X), X != c.", "p(X) :- q(X), X != c, X != d.", "p(X) :- q(X), not t(X). t(c).", "p(X) :- q(X). :- q(c), q(d), c = d.", "p(X) :- q(X), X < c."];
 const SN: &[&str] = &["spec: forall X (p(X) <-> q(X) and X != n).", "spec: forall X (p(X) -> q(X) and X < n). spec(backward): forall X (p(X) -> X != n).", "assumption: n > 0. spec: forall X (p(X) <-> q(X) and X < n)."];
 const SNAMED: &[&str] = &["spec[formula_1]: p -> q. spec[formula_1]: q -> p.", "assumption[a]: q or not q. spec[formula_0_a]: p <-> q.", "spec[x]: p -> q. spec[x]: q -> p.", "spec[formula_2_completed_definition_of_p_0]: p <-> q.",
@@ -136,7 +139,7 @@ pub fn cases(deep: bool) -> Vec<(Case, Vec<&'static [&'static str]>)> {
     let mut out = Vec::new();
     let mut k = 0usize;
     let flags_for = |k: usize| -> Vec<&'static [&'static str]> { if deep { FLAGS.to_vec() } else { vec![FLAGS[0], FLAGS[1 + k % (FLAGS.len() - 1)], FLAGS[1 + (k / 2 + 3) % (FLAGS.len() - 1)]] } };
-    for (group, ug) in [(P0, UG0), (P0S, UG0S), (P0M, UG0M), (P1, UG1), (P1, UG1A), (PN, UGN), (PC, UGC), (P2, UG2), (PU, UGU), (PAB, UGAB)] {
+    for (group, ug) in [(P0, UG0), (P0S, UG0S), (P0M, UG0M), (P1, UG1), (P1, UG1A), (PN, UGN), (PG, UGG), (PC, UGC), (P2, UG2), (PU, UGU), (PAB, UGAB)] {
         let n = group.len();
         for i in 0..n {
             let js: Vec<usize> = if deep { (0..n).collect() } else { vec![(i + 1) % n, (i + 4) % n, (i + 9) % n] };
@@ -256,6 +259,34 @@ pub fn check_case(c: &Case, flag_sets: &[&[&str]], st: &mut VStats, fails: &mut 
         }
         for p in &problems { for e in &p.wf_errors { fails.push(Failure { property: "C09", input: what.clone(), detail: format!("{}: {e}", p.file) }); } }
         for p in &problems { if let Some(m) = crate::verify::symbol_chain_complaint(p) { fails.push(Failure { property: "C12", input: what.clone(), detail: format!("{}: {m}", p.file) }); } }
+        // C12: an axiom without any predicate of the task is one that anthem has added on its own (preamble, order of the symbols, whatever
+        // it says about placeholders) - unless the task itself has formulas without predicates; it must be true in the standard
+        // interpretation whatever the placeholders denote (general placeholders may denote #inf and #sup)
+        let user_predicate_free = ug.formulas().iter().any(|f| f.formula.predicates().is_empty())
+            || spec.as_ref().is_some_and(|s| s.formulas.iter().any(|f| f.formula.predicates().is_empty()))
+            || outline.as_ref().is_some_and(|s| s.formulas.iter().any(|f| f.formula.predicates().is_empty()))
+            || left.iter().chain(std::iter::once(&prog)).any(|p| p.rules.iter().any(|r| matches!(r.head, asp::Head::Falsity) && !r.body.formulas.iter().any(|f| matches!(f, asp::AtomicFormula::Literal(_)))));
+        if !user_predicate_free {
+            let phs: Vec<(String, fol::Sort)> = ug.placeholders().into_iter().map(|c| (c.name, c.sort)).collect();
+            let mut combos: Vec<HashMap<String, Val>> = vec![HashMap::new()];
+            for (n, sort) in &phs {
+                let (suffix, vals): (&str, Vec<Val>) = match sort { fol::Sort::Integer => ("i", vec![Val::Int(0), Val::Int(-1), Val::Int(2)]), fol::Sort::Symbol => ("s", vec![Val::Sym("a".into()), Val::Sym("zz".into())]), fol::Sort::General => ("g", vec![Val::Inf, Val::Int(0), Val::Sym("a".into()), Val::Sup]) };
+                combos = combos.into_iter().flat_map(|pre| vals.iter().map(move |v| { let mut m = pre.clone(); m.insert(format!("{n}_{suffix}"), v.clone()); m }).collect::<Vec<_>>()).collect();
+            }
+            let mut seen: BTreeSet<String> = BTreeSet::new();
+            'own: for p in &problems {
+                for (name, role, f) in &p.formulas {
+                    if role != "axiom" || !f.predicates().is_empty() || !seen.insert(f.to_string()) { continue; }
+                    for cm in &combos {
+                        let m = Ht { here: Atoms::new(), there: Atoms::new(), consts: cm.clone() };
+                        if !cl_sat(f, &dom, &m) {
+                            fails.push(Failure { property: "C12", input: what.clone(), detail: format!("{}: the axiom {name}, which mentions no predicate of the task, is false in the standard interpretation with the placeholders {:?}: `{f}`", p.file, cm) });
+                            break 'own;
+                        }
+                    }
+                }
+            }
+        }
         if problems.iter().any(|p| !p.readable) { continue; }
         let want_fw = !flags.contains(&"backward");
         let want_bw = !flags.contains(&"forward");
